@@ -50,7 +50,7 @@ BOUNDS = {
         "family_R_keysets": [["200"], ["default"]], "family_R_keysets_2.0": [["200"]],
         "validate_response_all_four_checks": "every pair of family S; pairs of family R without an X-A header",
         "content": ["none", "json:A", "json:A+xml:B", "xml:B+json:A", "*/*:A", "problem+json:A", "json:A+problem+json:B"],
-        "schemas_A": ["required_int", "nullable", "write_only", "ref", "recursive_ref"],
+        "schemas_A": ["required_int", "nullable", "write_only", "read_only", "ref", "recursive_ref"],
         "headers": ["none", "required_int", "optional_string", "ref"], "response_behind_ref": [False, True],
         "swagger_produces": ["none", "json", "json+xml", "xml+json", "problem_json", "global_json"],
     },
@@ -62,7 +62,7 @@ BOUNDS = {
         "family_R_keysets_2.0": [["200"], ["default"], [200], ["200", "default"], ["default", "201"]],
         "validate_response_all_four_checks": "every pair",
         "content": ["none", "json:A", "json:A+xml:B", "xml:B+json:A", "*/*:A", "problem+json:A", "json:A+problem+json:B"],
-        "schemas_A": ["required_int", "nullable", "write_only", "ref", "recursive_ref", "ref_two_levels"],
+        "schemas_A": ["required_int", "nullable", "write_only", "read_only", "ref", "recursive_ref", "ref_two_levels"],
         "headers": ["none", "required_int", "optional_string", "ref"], "response_behind_ref": [False, True],
         "swagger_produces": ["none", "json", "json+xml", "xml+json", "problem_json", "global_json"],
     },
@@ -92,7 +92,7 @@ ASSUMPTIONS = [
     "failures are attributed to the deviation aspect by their class (e.g. MissingContentType raised by response_schema_conformance counts for the Content-Type aspect), so a check reporting another aspect's deviation is never an alarm by itself",
 ]
 
-SCHEMA_FAMILIES_QUICK = ["required_int", "nullable", "write_only", "ref", "recursive_ref"]
+SCHEMA_FAMILIES_QUICK = ["required_int", "nullable", "write_only", "read_only", "ref", "recursive_ref"]
 CONTENT_VARIANTS = ["none", "json", "json_xml", "xml_json", "any", "problem", "json_problem"]
 HEADER_VARIANTS = ["none", "required_int", "optional_string", "ref"]
 PRODUCES_VARIANTS = ["none", "json", "json_xml", "xml_json", "problem", "global_json"]
@@ -119,6 +119,10 @@ def schema_a(family: str, spec: str) -> tuple[Any, dict]:
     if family == "write_only":
         return {"type": "object", "properties": {"id": {"type": "integer"}, "pw": {"type": "string", "writeOnly": True}},
                 "required": ["id", "pw"]}, {}
+    if family == "read_only":
+        # a required readOnly property (server-assigned id): required in responses, and its presence is conforming
+        return {"type": "object", "properties": {"id": {"type": "integer", "readOnly": True}, "name": {"type": "string"}},
+                "required": ["id"]}, {}
     if family == "ref":
         return {"$ref": prefix + "A"}, {"A": json.loads(json.dumps(REQUIRED_INT))}
     if family == "ref_two_levels":
@@ -242,7 +246,7 @@ def items(tier: str, seed: int) -> list[dict]:
             for pa in range(len(keys)):
                 out.append({"fam": "S", "spec": spec, "keys": keys, "pa": pa})
     for spec in b["specs"]:
-        families = [f for f in ("required_int", "nullable", "write_only", "ref", "recursive_ref", "ref_two_levels")
+        families = [f for f in ("required_int", "nullable", "write_only", "read_only", "ref", "recursive_ref", "ref_two_levels")
                     if f in SCHEMA_FAMILIES_QUICK or tier == "thorough"]
         if spec == "2.0":
             families = [f for f in families if f != "write_only"]  # writeOnly is not an OpenAPI 2.0 keyword
@@ -581,7 +585,7 @@ def vacuity(total: Result, tier: str) -> list[str]:
     for how in ("exact", "range", "default", "none"):
         if not c.get("selected_by_" + how):
             out.append(f"no response was selected by '{how}'")
-    families = ["required_int", "nullable", "write_only", "ref", "recursive_ref"] + (["ref_two_levels"] if tier == "thorough" else [])
+    families = ["required_int", "nullable", "write_only", "read_only", "ref", "recursive_ref"] + (["ref_two_levels"] if tier == "thorough" else [])
     for family in families:
         for verdict_ in (oracle.PASS, oracle.FAIL):
             if not c.get(f"agree_body_{family}_{verdict_}"):
